@@ -28,6 +28,9 @@ TRIGGERS = {
     "ooo-mem": lambda v, f: v in SUPER and (f["loads"] > 0 or f["ld_text"]) and (f["stores"] > 0 or f["st_text"]),
     # README (fixed in MVP-6.2): on 6.0/6.1 the shadow of a slow (load-fed) conditional branch commits
     "ooo-shadow": lambda v, f: v in ("mvp6-0", "mvp6-1") and f["ld_text"] and f["branches"],
+    # D29: two conditional branches in flight while loads keep the older one's neighbourhood busy: the younger
+    # branch (e.g. a taken branch to the end label) takes effect although it is on the wrong path
+    "ooo-2branch": lambda v, f: v in SUPER and v != "mvp6-0" and f["ld_text"] and f["cbr_text"] >= 2,
     # D26: a wrong-path instruction that raises a defined error fails the run (6.0; the renaming variants too)
     "ooo-spec-error": lambda v, f: v in ("mvp6-0", "mvp6-3", "mvp7-0", "mvp7-1", "mvp8-0") and f["err_text"] and f["branches"],
     # D19/D20/D30: renaming admits a second in-flight writer
